@@ -451,15 +451,23 @@ fn main() {
         std::process::exit(2);
     }
     std::panic::set_hook(Box::new(|_| {}));
+    let skip: usize = args.get(3).map_or(0, |s| s.parse().unwrap());
     let input = BufReader::new(File::open(&args[1]).expect("scenarios"));
-    let mut w = BufWriter::new(File::create(&args[2]).expect("trace"));
+    // appended to: a run that died (the code under test corrupted the heap) is resumed after the
+    // scenario that killed it
+    let mut w = BufWriter::new(
+        std::fs::OpenOptions::new().create(true).append(true).open(&args[2]).expect("trace"),
+    );
     let mut nsc = 0u64;
     let mut nev = 0u64;
-    for line in input.lines() {
+    for (idx, line) in input.lines().enumerate() {
         let line = line.unwrap();
-        if line.trim().is_empty() {
+        if idx < skip || line.trim().is_empty() {
             continue;
         }
+        // which scenario is running, should the process die in it
+        w.write_all(format!("{{\"ev\":\"running\",\"index\":{}}}\n", idx).as_bytes()).unwrap();
+        w.flush().unwrap();
         let sc: Value = serde_json::from_str(&line).expect("scenario json");
         let mut out = Vec::new();
         dispatch(&sc, &mut out);
@@ -469,6 +477,7 @@ fn main() {
             w.write_all(b"\n").unwrap();
             nev += 1;
         }
+        w.flush().unwrap();
     }
     w.flush().unwrap();
     println!("{{\"scenarios\":{},\"events\":{}}}", nsc, nev);
